@@ -44,6 +44,9 @@ Qed.
 Lemma ROWS_nat g : wf_geom g -> ROWS g = N.of_nat (rows_nat g).
 Proof. intros H. rewrite (ROWS_pow2 g H). apply pow2_of_nat. Qed.
 
+Lemma iter_S_r {A} (f : A -> A) n x : Nat.iter (S n) f x = Nat.iter n f (f x).
+Proof. induction n; [reflexivity|]. change (f (Nat.iter (S n) f x) = f (Nat.iter n f (f x))). rewrite IHn. reflexivity. Qed.
+
 (* remaining iterations after index b of a loop `for b in 0..a` (0 when b is out of range) *)
 Definition rem (a b : N) : N := a - (b + 1).
 
@@ -269,4 +272,116 @@ Section Progress.
       split_ifs.
     all: leaf c.
   Qed.
+  (* ---------- the measure is positive, so it counts the remaining steps ---------- *)
+  Lemma stale_le1 s c p : stale s c p <= 1.
+  Proof.
+    destruct p; cbn [stale]; unfold stale_ent, stale_row; try lia;
+      match goal with |- context [match ?x with _ => _ end] => destruct x end; try lia;
+      match goal with |- context [if ?x then _ else _] => destruct x end; lia.
+  Qed.
+
+  Lemma mu_pos s c p : 1 <= mu s c p.
+  Proof.
+    unfold mu. assert (1 <= base c p); [|lia].
+    destruct p; cbn [base]; unfold KW, oG2L, oG2C, oG2R, oG2W, oG2U, tE, tB; lia.
+  Qed.
+
+  Lemma solo_S n s t : solo g (S n) s t = solo g n (fst (mstep g s t (CGet 0 0))) t.
+  Proof. exact (iter_S_r (fun s => fst (mstep g s t (CGet 0 0))) n s). Qed.
+
+  Lemma solo_mu t : forall m s c p, nth_error (ms_pool s) t = Some (TRun c p) ->
+    mu s c p <= N.of_nat m -> exists n, (n <= m)%nat /\ settled (solo g n s t) t = true.
+  Proof.
+    induction m; intros s c p Hth Hm.
+    - pose proof (mu_pos s c p). lia.
+    - destruct (step_dec s t c p (CGet 0 0) Hth) as [Hs | (p' & Hth' & Hlt & _)].
+      + exists 1%nat. split; [lia|]. exact Hs.
+      + destruct (IHm _ c p' Hth') as (n & Hn & Hset); [lia|].
+        exists (S n). split; [lia|]. rewrite solo_S. exact Hset.
+  Qed.
+
+  (* ---------- the closed-form bound ---------- *)
+  Definition boundN : N := TH * (5 * RW + 7) + 4 * RW + 15.
+
+  Hypothesis WF : wf_geom g.
+
+  Lemma bound_boundN : N.of_nat (bound g) = boundN.
+  Proof.
+    unfold bound, boundN. rewrite (THUGE_nat g), (ROWS_nat g WF). lia.
+  Qed.
+
+  Lemma RW_ge1 : 1 <= RW.
+  Proof. rewrite (ROWS_pow2 g WF). pose proof (pow2_pos (hord g - 6)). lia. Qed.
+  Lemma TH_ge1 : 1 <= TH.
+  Proof. rewrite THUGE_pow2. pose proof (pow2_pos (tlog g)). lia. Qed.
+
+  Lemma small_nr c : small c = true -> c_nr c <= RW.
+  Proof.
+    unfold small. intros H. apply Nat.ltb_lt in H. rewrite (ROWS_pow2 g WF). unfold c_nr.
+    apply pow2_le. lia.
+  Qed.
+
+  Lemma chunks_facts c : small c = true ->
+    1 <= c_chunks g c /\ c_chunks g c * c_nr c <= RW /\ c_chunks g c <= RW.
+  Proof.
+    intros H. pose proof (small_nr c H). assert (0 < c_nr c) by apply pow2_pos.
+    unfold c_chunks. repeat split.
+    - assert (0 < RW / c_nr c) by (apply N.div_str_pos; lia). lia.
+    - rewrite N.mul_comm. apply N.mul_div_le. lia.
+    - apply N.div_le_upper_bound; [lia|]. nia.
+  Qed.
+
+  Lemma chunk_off_le c ch x : small c = true -> x <= CW c ->
+    4 + rem (c_chunks g c) ch * CW c + x <= 5 * RW + 4.
+  Proof.
+    intros H Hx. destruct (chunks_facts c H) as (H1 & H2 & H3).
+    pose proof (rem_top (c_chunks g c) ch (CW c) H1).
+    assert (c_chunks g c * CW c = 3 * (c_chunks g c * c_nr c) + 2 * c_chunks g c) by (unfold CW; lia).
+    lia.
+  Qed.
+
+  Lemma M2_le c : small c = true -> M2 c <= 5 * RW + 4.
+  Proof.
+    intros H. unfold M2. destruct (Nat.leb (c_order c) 6).
+    - unfold oG2L, rem. pose proof RW_ge1. lia.
+    - unfold oG2R. pose proof (chunk_off_le c 0 (CW c) H ltac:(lia)). unfold CW in *. lia.
+  Qed.
+
+  Lemma get_small_le c j o : small c = true -> o <= 5 * RW + 7 -> rem TH j * KW c + o <= boundN.
+  Proof.
+    intros H Ho. pose proof (M2_le c H). pose proof TH_ge1.
+    assert (rem TH j * KW c + o <= TH * (5 * RW + 7)).
+    { apply weighted_le; [unfold rem; lia | unfold KW; lia | exact Ho]. }
+    unfold boundN. lia.
+  Qed.
+
+  Lemma tnrows_le x c : small c = true -> t_nrows g x c <= RW.
+  Proof.
+    unfold small. intros H. apply Nat.ltb_lt in H. rewrite (ROWS_pow2 g WF). unfold t_nrows.
+    apply pow2_le. destruct x; cbn [t_order]; lia.
+  Qed.
+
+  Lemma huge_facts c : Nat.leb (hord g) (c_order c) = true -> Nat.leb (c_order c) (tord g) = true ->
+    1 <= group_cnt g c /\ group_cnt g c * GW c <= 3 * TH.
+  Proof.
+    intros H1 H2. apply Nat.leb_le in H1, H2. unfold tord in H2.
+    assert (Hh : c_hnum g c <= TH) by (rewrite THUGE_pow2; unfold c_hnum; apply pow2_le; lia).
+    assert (0 < c_hnum g c) by apply pow2_pos.
+    unfold GW. destruct c; cbn [group_cnt]; try lia.
+    assert (0 < TH / c_hnum g (CGet start order)) by (apply N.div_str_pos; lia).
+    pose proof (N.mul_div_le TH (c_hnum g (CGet start order)) ltac:(lia)).
+    assert (TH / c_hnum g (CGet start order) <= TH) by (apply N.div_le_upper_bound; [lia|nia]).
+    split; [lia|]. nia.
+  Qed.
+
+  Lemma mu_bound s c p : pc_ok c p = true -> mu s c p <= boundN.
+  Proof.
+    intros Hok. unfold mu. pose proof (stale_le1 s c p) as Hst.
+    pose proof RW_ge1 as HR. pose proof TH_ge1 as HT.
+    destruct p; cbn [pc_ok] in Hok; cbn [base].
+    all: try (apply andb_true_iff in Hok; destruct Hok as [Hok Hq]; apply N.ltb_lt in Hq).
+    1-9: pose proof (M2_le c Hok); rewrite <- ?N.add_assoc; apply get_small_le; [exact Hok|].
+    1-9: unfold KW, oG2L, oG2C, oG2R, oG2W, oG2U in *; cbn [stale] in *.
+    Show.
+  Abort.
 End Progress.
